@@ -127,6 +127,9 @@ func Eq(a, b T) T {
 	if a.S == b.S {
 		return TTrue
 	}
+	if a.Sort == SInt && b.Sort == SInt && isNumeral(a.S) && isNumeral(b.S) {
+		return TFalse // two different numerals
+	}
 	return app(SBool, "=", a, b)
 }
 func Ite(c, a, b T) T {
@@ -194,10 +197,49 @@ func Sub(a, b T) T {
 	return app(SInt, "-", a, b)
 }
 func Mul(a, b T) T  { return app(SInt, "*", a, b) }
-func Lt(a, b T) T   { return app(SBool, "<", a, b) }
-func Le(a, b T) T   { return app(SBool, "<=", a, b) }
-func Gt(a, b T) T   { return app(SBool, ">", a, b) }
-func Ge(a, b T) T   { return app(SBool, ">=", a, b) }
+// comparisons of two small non-negative numerals are decided while the VC is built
+func cmpFold(op string, a, b T) (T, bool) {
+	if a.Sort == SInt && b.Sort == SInt && isNumeral(a.S) && isNumeral(b.S) && len(a.S) < 18 && len(b.S) < 18 {
+		x, y := atoi(a.S), atoi(b.S)
+		var r bool
+		switch op {
+		case "<":
+			r = x < y
+		case "<=":
+			r = x <= y
+		case ">":
+			r = x > y
+		case ">=":
+			r = x >= y
+		}
+		return B(r), true
+	}
+	return T{}, false
+}
+func Lt(a, b T) T {
+	if r, ok := cmpFold("<", a, b); ok {
+		return r
+	}
+	return app(SBool, "<", a, b)
+}
+func Le(a, b T) T {
+	if r, ok := cmpFold("<=", a, b); ok {
+		return r
+	}
+	return app(SBool, "<=", a, b)
+}
+func Gt(a, b T) T {
+	if r, ok := cmpFold(">", a, b); ok {
+		return r
+	}
+	return app(SBool, ">", a, b)
+}
+func Ge(a, b T) T {
+	if r, ok := cmpFold(">=", a, b); ok {
+		return r
+	}
+	return app(SBool, ">=", a, b)
+}
 func Neg(a T) T     { return app(SInt, "-", a) }
 func Select(a, i T) T { return app(arrElem(a.Sort), "select", a, i) }
 func Store(a, i, v T) T { return app(a.Sort, "store", a, i, v) }
